@@ -10,7 +10,10 @@
 //! - Byte-lexicographic order over full 32-byte scope hash preserved exactly.
 
 use std::cmp::Ordering;
+#[cfg(not(feature = "echo_verif_flat"))]
 use std::collections::BTreeMap;
+#[cfg(feature = "echo_verif_flat")]
+use crate::verif_flat::BTreeMap;
 
 use std::sync::Arc;
 
@@ -1575,4 +1578,37 @@ mod tests {
             }
         }
     }
+}
+
+// ----------------------------------------------------------------------------
+// Verification-only access to the private sort-key kernels (feature `echo_verif`).
+// Forwarding only; see `crate::verif_hooks`.
+// ----------------------------------------------------------------------------
+#[cfg(feature = "echo_verif")]
+fn verif_thin(a: (&[u8; 32], u32, u32)) -> RewriteThin {
+    RewriteThin {
+        scope_be32: *a.0,
+        rule_id: a.1,
+        nonce: a.2,
+        handle: 0,
+    }
+}
+
+#[cfg(feature = "echo_verif")]
+pub(crate) fn verif_cmp_thin(a: (&[u8; 32], u32, u32), b: (&[u8; 32], u32, u32)) -> Ordering {
+    cmp_thin(&verif_thin(a), &verif_thin(b))
+}
+
+#[cfg(feature = "echo_verif")]
+pub(crate) fn verif_bucket16(a: (&[u8; 32], u32, u32), pass: usize) -> u16 {
+    bucket16(&verif_thin(a), pass)
+}
+
+#[cfg(feature = "echo_verif")]
+pub(crate) fn verif_pending_enqueue_drain(script: &[([u8; 32], u32, u32)]) -> Vec<u32> {
+    let mut q: PendingTx<u32> = PendingTx::default();
+    for (scope, rule, payload) in script {
+        q.enqueue(*scope, *rule, *payload);
+    }
+    q.drain_in_order()
 }
